@@ -56,19 +56,19 @@ func RecvNamed(f *types.Func) *types.Named {
 
 // IsMethod reports whether f is method name on a type named typ declared in package path pkg.
 func IsMethod(f *types.Func, pkg, typ, name string) bool {
-	if f == nil || f.Name() != name {
+	if f == nil || Ident(f.Name()) != name {
 		return false
 	}
 	n := RecvNamed(f)
 	if n == nil || n.Obj().Pkg() == nil {
 		return false
 	}
-	return n.Obj().Pkg().Path() == pkg && n.Obj().Name() == typ
+	return n.Obj().Pkg().Path() == pkg && Ident(n.Obj().Name()) == typ
 }
 
 // IsFunc reports whether f is the package-level function pkg.name.
 func IsFunc(f *types.Func, pkg, name string) bool {
-	if f == nil || f.Name() != name || f.Pkg() == nil {
+	if f == nil || Ident(f.Name()) != name || f.Pkg() == nil {
 		return false
 	}
 	sig, ok := f.Type().(*types.Signature)
@@ -88,16 +88,16 @@ func ObjString(f *types.Func) string {
 		if n.Obj().Pkg() != nil {
 			pk = lastElem(n.Obj().Pkg().Path()) + "."
 		}
-		return "(" + pk + n.Obj().Name() + ")." + f.Name()
+		return "(" + pk + Ident(n.Obj().Name()) + ")." + Ident(f.Name())
 	}
 	if sig, ok := f.Type().(*types.Signature); ok && sig.Recv() != nil {
 		// method of unnamed interface
 		return "(interface)." + f.Name()
 	}
 	if f.Pkg() != nil {
-		return lastElem(f.Pkg().Path()) + "." + f.Name()
+		return lastElem(f.Pkg().Path()) + "." + Ident(f.Name())
 	}
-	return f.Name()
+	return Ident(f.Name())
 }
 
 func lastElem(p string) string {
@@ -351,7 +351,7 @@ func ErrValues(c ssa.CallInstruction) []ssa.Value {
 
 func isErrorType(t types.Type) bool {
 	n, ok := t.(*types.Named)
-	return ok && n.Obj().Pkg() == nil && n.Obj().Name() == "error"
+	return ok && n.Obj().Pkg() == nil && Ident(n.Obj().Name()) == "error"
 }
 
 // IsErrorType is exported for rules.
